@@ -49,6 +49,7 @@ type targetJ struct {
 	Key   string   `json:"key,omitempty"`
 	Excl  []string `json:"excl,omitempty"`
 	Count bool     `json:"count,omitempty"`
+	Rx    string   `json:"rx,omitempty"` // regex key ARGS:/^pfx/ ; modelled when it is "^" + lower-case literal
 }
 
 type actJ struct {
@@ -150,6 +151,9 @@ func multiTarget(t targetJ) bool {
 	if t.Count || singleVar[t.Var] {
 		return false
 	}
+	if t.Rx != "" {
+		return true
+	}
 	if t.Var == "TX" && t.Key != "" {
 		return false
 	}
@@ -174,7 +178,7 @@ func linkOK(tm, tc bool, l linkJ) bool {
 		if (t.Var == "MATCHED_VAR" || t.Var == "MATCHED_VAR_NAME") && tma {
 			return false
 		}
-		if t.Var == "TX" && (t.Key == "" || isCapKey(strings.ToLower(t.Key))) && tca {
+		if t.Var == "TX" && (t.Rx != "" || t.Key == "" || isCapKey(strings.ToLower(t.Key))) && tca {
 			return false
 		}
 	}
@@ -246,7 +250,9 @@ func targetText(ts []targetJ) string {
 	var parts []string
 	for _, t := range ts {
 		s := t.Var
-		if t.Key != "" {
+		if t.Rx != "" {
+			s += ":/" + t.Rx + "/"
+		} else if t.Key != "" {
 			s += ":" + t.Key
 		}
 		if t.Count {
@@ -349,7 +355,20 @@ func coqLink(l linkJ) (string, bool) {
 		if !ok {
 			return "", false
 		}
-		ts = append(ts, fmt.Sprintf("(mkT %s %s %s %s)", v, vh.OptionOf(t.Key != "", vh.HxS(t.Key)), vh.HxList(t.Excl), vh.Bool(t.Count)))
+		rx := "None"
+		if t.Rx != "" {
+			// modelled fragment: ^ + literal of lower-case letters, digits, '-'
+			if t.Rx[0] != '^' || len(t.Rx) < 2 {
+				return "", false
+			}
+			for _, c := range t.Rx[1:] {
+				if !(c >= 'a' && c <= 'z' || c >= '0' && c <= '9' || c == '-') {
+					return "", false
+				}
+			}
+			rx = "(Some " + vh.HxS(t.Rx[1:]) + ")"
+		}
+		ts = append(ts, fmt.Sprintf("(mkT %s %s %s %s %s)", v, vh.OptionOf(t.Key != "", vh.HxS(t.Key)), vh.HxList(t.Excl), vh.Bool(t.Count), rx))
 	}
 	var tfs []string
 	for _, t := range l.T {
